@@ -34,8 +34,6 @@ def readToks (r : String × Nat × Nat) : List String :=
 def layoutTok (l : List (Nat × Nat)) : String :=
   if l.isEmpty then "-" else String.intercalate "," (l.map fun (o, s) => s!"{o}+{s}")
 
-def specPut (spec : List Obj) (k : List (List Nat)) (d : List Seg) : List Obj := ⟨k, d⟩ :: spec.filter fun o => o.key ≠ k
-
 def step (d : D) (n : Nat) (ln : Line) : D × List String :=
   let a := ln.args
   let o := ln.outs
@@ -59,11 +57,13 @@ def step (d : D) (n : Nat) (ln : Line) : D × List String :=
   | "get" =>
     let k := keyOfTok (a.getD 0 "-")
     let av := tokInt (a.getD 1 "-1"); let bv := tokNat (a.getD 2 "0")
+    -- contents the model does not predict (a stored filer listing page): any successful read is taken as it comes
+    let okRead := o.getD 0 "" == "s200" || o.getD 0 "" == "s206" || o.getD 0 "" == "e416"
     let model := match findObj d.st k with
-      | some ob => readToks (specRead ob.data av bv)
+      | some ob => if isOpaque ob.data && okRead then o else readToks (specRead ob.data av bv)
       | none => ["e404"]
     let want := match d.spec.find? (fun x => x.key == k) with
-      | some ob => readToks (specRead ob.data av bv)
+      | some ob => if isOpaque ob.data && okRead then o else readToks (specRead ob.data av bv)
       | none => ["e404"]
     let j := if o == want then [] else
       [specfail n (if d.ordBroken.contains k then "completeMultipartUpload/parts-not-in-numeric-order"
@@ -74,19 +74,26 @@ def step (d : D) (n : Nat) (ln : Line) : D × List String :=
     (d, diff n ln model ++ j ++ cov)
   | "copy" =>
     let src := keyOfTok (a.getD 0 "-"); let dst := keyOfTok (a.getD 1 "-")
-    match findObj d.st src with
-    | some ob =>
-      match putTarget d.st dst with
-      | none => (d, diff n ln ["e500"] ++ ["COV copy.below-an-object"])
-      | some t =>
-        let sd := (d.spec.find? (fun x => x.key == src)).map (·.data) |>.getD ob.data
-        let brk := if d.ordBroken.contains src then dst :: d.ordBroken else d.ordBroken
-        let sh := if t != dst then dst :: d.shadowed else d.shadowed.filter (· ≠ dst)
-        let j := if t != dst then [specfail n "PutObjectHandler/key-naming-a-directory-stored-inside-it" (a.getD 1 "")] else []
-        let spec' := if o.getD 0 "" == "ok" then specPut d.spec dst sd else d.spec
-        ({ d with st := putObj d.st t ob.data, spec := spec', lastMut := "copy", ordBroken := brk, shadowed := sh },
-         diff n ln ["ok"] ++ j ++ ["COV copy"])
-    | none => (d, if o.getD 0 "" == "ok" then [s!"DIFF {n} copy of a missing source succeeded"] else ["COV copy.missing"])
+    let acked := o.getD 0 "" == "ok"
+    let body := copyBody d.st src
+    match copyObj d.st src dst with
+    | none => (d, diff n ln ["e500"] ++ ["COV copy.below-an-object"])
+    | some (st', t) =>
+      -- the judge: over the specification's bucket and the acknowledgement the IMPLEMENTATION gave
+      let jc := match copyJudge d.spec src dst acked with
+        | some cls => [specfail n cls (String.intercalate " " a)]
+        | none => []
+      -- what the destination must hold; once a deviation is reported the specification follows the implementation
+      let sd := match specCopy d.spec src dst with
+        | some sp => (sp.find? (fun x => x.key == dst)).map (·.data) |>.getD body.data
+        | none => body.data
+      let brk := if d.ordBroken.contains src then dst :: d.ordBroken else d.ordBroken
+      let sh := if t != dst then dst :: d.shadowed else d.shadowed.filter (· ≠ dst)
+      let j := if t != dst then [specfail n "PutObjectHandler/key-naming-a-directory-stored-inside-it" (a.getD 1 "")] else []
+      let spec' := if acked then specPut d.spec dst sd else d.spec
+      ({ d with st := st', spec := spec', lastMut := "copy", ordBroken := brk, shadowed := sh },
+       diff n ln ["ok"] ++ jc ++ j ++ [match body with
+         | .bytes _ => "COV copy" | .empty404 => "COV copy.missing-source" | .listingPage => "COV copy.directory-source"])
   | "mpinit" =>
     ({ d with st := setUp d.st ⟨a.getD 0 "", tokBytes (a.getD 1 "-"), []⟩ }, diff n ln ["ok"] ++ ["COV mpinit"])
   | "mppart" | "mpcopy" =>
@@ -103,7 +110,10 @@ def step (d : D) (n : Nat) (ln : Line) : D × List String :=
           | none => none
       if no > maxPartID then (d, diff n ln ["e400"] ++ ["COV mppart.above-max"])
       else match src with
-        | none => (d, ["COV mpcopy.missing-source"])
+        | none =>
+          -- `util.ReadUrlAsReaderCloser` does look at the status: a missing source is refused (InvalidCopySource);
+          -- a source naming a directory would store the filer's listing page as the part (not generated, not modelled)
+          (d, (if copyBody d.st (keyOfTok (a.getD 2 "-")) == .empty404 then diff n ln ["e400"] else []) ++ ["COV mpcopy.missing-source"])
         | some data =>
           let up' := { up with parts := insertByName ⟨no, data⟩ up.parts }
           ({ d with st := setUp d.st up' }, diff n ln ["ok"] ++ [if no > 9999 then "COV mppart.five-digits" else "COV mppart"]
